@@ -328,12 +328,12 @@ impl BoardState {
         let castling_privileges = fen_config[2];
         let en_passant = fen_config[3];
 
-        let half_move_clock = fen_config[4].parse::<u8>();
+        let half_move_clock = fen_config[4].parse::<u32>();
         if half_move_clock.is_err() {
             return Err("Could not parse fen string: Invalid half move value");
         }
 
-        let full_move_clock = fen_config[5].parse::<u8>();
+        let full_move_clock = fen_config[5].parse::<u32>();
         if full_move_clock.is_err() {
             return Err("Could not parse fen string: Invalid full move value");
         }
